@@ -1,6 +1,6 @@
 """C08 — missing day/month are completed exactly as configured; period is truthful."""
 import calendar
-from datetime import datetime
+from datetime import datetime, timedelta, timezone
 
 from ..gen.common import MA, MN, WN, rng
 from ..hooks import AnchorCounter
@@ -164,6 +164,12 @@ def gen_random(rnd):
     else:
         bd = clampday(by, bm, rnd.choice([28, 29, 30, 31, rnd.randrange(1, 32)]))
     b = datetime(by, bm, bd, rnd.randrange(24), rnd.randrange(60))
+    if rnd.random() < 0.15:
+        # an aware reference whose own calendar date differs from the UTC date (close to midnight, offset far from 0):
+        # "the reference day/month" is the date the reference itself shows
+        off = rnd.choice([5, 9, 13, -8, -11, 5.5])
+        hour = rnd.choice([0, 1, 2]) if off > 0 else rnd.choice([21, 22, 23])
+        b = b.replace(hour=hour, tzinfo=timezone(timedelta(hours=off)))
     kind = rnd.choice(["my", "my_abbr", "my_num", "y", "full", "full_iso", "full_time", "fmt", "fmt", "dy", "dy_ord"])
     c = {"kind": kind, "y": y, "m": m, "base": iso(b), "pd": rnd.choice(PREFS), "pm": rnd.choice(PREFS),
          "rtp": rnd.random() < 0.3}
